@@ -47,6 +47,9 @@ pub enum HostKind {
     Ip,
     /// "127.0.0.1:<port of target i>"
     IpWithPort { i: u8 },
+    /// "localhost" / "LOCALHOST:<port>": an ordinary name for a connector with a custom resolver
+    Localhost,
+    LocalhostWithPort { i: u8 },
 }
 
 #[derive(Clone, Debug, Serialize, Deserialize, PartialEq)]
@@ -156,6 +159,13 @@ async fn run_tcp(c: &TcpCase) -> CaseResult {
         HostKind::NameWithPort { i } => (format!("example.test:{}", port_of(*i)), Some(port_of(*i))),
         HostKind::Ip => ("127.0.0.1".into(), None),
         HostKind::IpWithPort { i } => (format!("127.0.0.1:{}", port_of(*i)), Some(port_of(*i))),
+        HostKind::Localhost => ("localhost".into(), None),
+        HostKind::LocalhostWithPort { i } => (format!("LOCALHOST:{}", port_of(*i)), Some(port_of(*i))),
+    };
+    let host_name = match &c.host {
+        HostKind::Localhost => "localhost",
+        HostKind::LocalhostWithPort { .. } => "LOCALHOST",
+        _ => "example.test",
     };
     let is_ip = matches!(c.host, HostKind::Ip | HostKind::IpWithPort { .. });
     let list = |idx: &Vec<u8>| -> Vec<SocketAddr> { if n == 0 { vec![] } else { idx.iter().take(4).map(|i| addrs[pick(*i, n)]).collect() } };
@@ -183,7 +193,8 @@ async fn run_tcp(c: &TcpCase) -> CaseResult {
     if let Some(p) = set_port {
         req = req.set_port(p);
     }
-    let local_ip = if c.local_v6 { IpAddr::V6(std::net::Ipv6Addr::LOCALHOST) } else { IpAddr::V4(Ipv4Addr::LOCALHOST) };
+    // 127.0.0.2: any address of 127/8 is local, and a socket that was *not* bound would use 127.0.0.1
+    let local_ip = if c.local_v6 { IpAddr::V6(std::net::Ipv6Addr::LOCALHOST) } else { IpAddr::V4(Ipv4Addr::new(127, 0, 0, 2)) };
     if c.local_addr {
         req = req.set_local_addr(local_ip);
     }
@@ -249,8 +260,8 @@ async fn run_tcp(c: &TcpCase) -> CaseResult {
     }
     if want_lookups == 1 {
         let (h, p) = &lookups[0];
-        if h != "example.test" || *p != eff_port {
-            return Err(Fail::new("C19/resolver-args", format!("the resolver was asked for ({:?}, {}), expected (\"example.test\", {})", h, p, eff_port)));
+        if h != host_name || *p != eff_port {
+            return Err(Fail::new("C19/resolver-args", format!("the resolver was asked for ({:?}, {}), expected ({:?}, {})", h, p, host_name, eff_port)));
         }
     }
     // addresses of the returned stream, taken before the listeners reset their ends
@@ -609,7 +620,7 @@ pub fn tcp_strategy() -> impl Strategy<Value = TcpCase> {
             2 => prop::collection::vec(prop_oneof![2 => Just(Target::Live), 1 => Just(Target::Closed), 3 => Just(Target::Live6), 2 => Just(Target::Closed6)], 2..5),
             1 => prop::collection::vec(prop_oneof![3 => Just(Target::Live6), 2 => Just(Target::Closed6)], 2..5),
         ],
-        prop_oneof![3 => Just(HostKind::Name), 2 => (0u8..4).prop_map(|i| HostKind::NameWithPort { i }), 2 => Just(HostKind::Ip), 3 => (0u8..4).prop_map(|i| HostKind::IpWithPort { i })],
+        prop_oneof![3 => Just(HostKind::Name), 2 => (0u8..4).prop_map(|i| HostKind::NameWithPort { i }), 2 => Just(HostKind::Ip), 3 => (0u8..4).prop_map(|i| HostKind::IpWithPort { i }), 1 => Just(HostKind::Localhost), 1 => (0u8..4).prop_map(|i| HostKind::LocalhostWithPort { i })],
         prop_oneof![4 => Just(Preset::None), 2 => (0u8..4).prop_map(|i| Preset::WithAddr { i }), 2 => (0u8..4).prop_map(|i| Preset::SetAddr { i }), 3 => idx().prop_map(|idx| Preset::SetAddrs { idx })],
         prop::option::weighted(0.4, 0u8..4),
         prop_oneof![6 => idx().prop_map(|idx| Res::Ok { idx }), 1 => Just(Res::Empty), 1 => Just(Res::Err)],
@@ -651,7 +662,7 @@ pub fn tls_strategy() -> impl Strategy<Value = TlsCase> {
         .prop_map(|(connector, server, san_dns, san_ip, trusted_issuer, host, payload)| TlsCase { connector, server, san_dns, san_ip, trusted_issuer, host, payload })
 }
 
-const RULE_TCP: &str = "(0..4 loopback targets each live (counts accepts) or closed (bound, not listening), host string name / name:port / IPv4 literal / literal:port, addresses pre-set through with_addr / set_addr / set_addrs or not, optional set_port, custom resolver answering ok(list) / empty / error with a call log, optional local bind address 127.0.0.1 or ::1 with targets on either loopback family (an address of the other family fails like a closed one and the next is tried); run through Connector, Resolver+TcpConnector, or TcpConnector alone); oracle: resolver not consulted when addresses are pre-set or the host is an IP literal (dialled at the request's port), otherwise exactly one lookup (hostname, port); NoRecords / Resolver / Unresolved errors; the stream's peer is the first live address in order, every live listener sees exactly the connections the in-order dialling implies, all-closed => Io(ConnectionRefused); non-trivial = a closed address before a live one, >= 2 live addresses, a bypassed resolver, or a resolution error";
+const RULE_TCP: &str = "(0..4 loopback targets each live (counts accepts) or closed (bound, not listening), host string name / name:port / localhost / LOCALHOST:port / IPv4 literal / literal:port, addresses pre-set through with_addr / set_addr / set_addrs or not, optional set_port, custom resolver answering ok(list) / empty / error with a call log, optional local bind address 127.0.0.2 or ::1 with targets on either loopback family (an address of the other family fails like a closed one and the next is tried); run through Connector, Resolver+TcpConnector, or TcpConnector alone); oracle: resolver not consulted when addresses are pre-set or the host is an IP literal (dialled at the request's port), otherwise exactly one lookup (hostname, port); NoRecords / Resolver / Unresolved errors; the stream's peer is the first live address in order, every live listener sees exactly the connections the in-order dialling implies, all-closed => Io(ConnectionRefused); non-trivial = a closed address before a live one, >= 2 live addresses, a bypassed resolver, or a resolution error";
 const RULE_TLS: &str = "(connector in {rustls 0.23, OpenSSL}, server in {rustls, OpenSSL}, leaf certificate with generated DNS / IP subject alternative names signed by the trusted or an untrusted CA, requested host from covered / uncovered / wildcard-covered / IP-literal / syntactically invalid printable names (fixed examples and valid names decorated with brackets, slashes, blanks and other punctuation in front, behind or around) with or without port, payload up to 64 KiB) over in-memory pipes; oracle: a TLS stream is returned iff the issuer is trusted and the name is valid and covered (reference matcher), then the payload round-trips in both directions; otherwise an error, never a panic; non-trivial = a case that must fail, or payload > 16 KiB";
 
 pub fn run(ctx: &Ctx) {
